@@ -109,7 +109,7 @@ func (self ValueString) Fields() (map[string]*Value, *Interrupt) {
 			decoder := json.NewDecoder(strings.NewReader(self.Inner))
 			decoder.UseNumber()
 			if err := decoder.Decode(&raw); err != nil {
-				return nil, NewRuntimeErr(fmt.Sprintf("JSON parse error: %s", err.Error()), JsonErrorKind, span)
+				return nil, NewThrowInterrupt(span, fmt.Sprintf("JSON parse error: %s", err.Error()))
 			}
 			value, i := unmarshalValue(span, raw)
 			if i != nil {
